@@ -24,6 +24,8 @@ impl OperationControl for Bol {
         matcher: &'a ReMatcher,
         position: usize,
     ) -> Box<dyn Iterator<Item = usize> + 'a> {
+        #[cfg(feature = "verif-hooks")]
+        crate::verif::step(crate::verif::site::OP_BOL);
         // Fail if we're not at the start of the string
         if position != 0 {
             // If we're multiline matching, we could still be at the start of a line
